@@ -1,6 +1,6 @@
 """C16 - assembly is a pure, deterministic function of its inputs (DESIGN.md section 3, C16).
 
-History explorer: an alphabet of 25 assemble() calls (programs that define constants / labels / register aliases other
+History explorer: an alphabet of 27 assemble() calls (programs that define constants / labels / register aliases other
 programs use WITHOUT defining, programs failing in five different passes, compressed / uncompressed, a path program
 with an include whose files are rewritten between calls, shared / differing include_dirs, dictionaries supplied or omitted); all histories up to the
 stated length (see coverage.bound) are executed, each in one fresh interpreter (one child process per history), and every step's complete result (bytes
@@ -19,10 +19,10 @@ from mc import kernel, trees
 
 PROP = 'C16'
 CHILD = os.path.join(os.path.dirname(os.path.dirname(os.path.abspath(__file__))), 'c16_child.py')
-OPS = ['def', 'use_const', 'use_label', 'use_alias', 'def_nd', 'use_const_nd', 'use_label_nd', 'use_alias_nd', 'fail_parse', 'fail_const', 'fail_enc', 'fail_data', 'ok_c', 'ok_u', 'many', 'board1', 'board2', 'incX', 'incY', 'incfail', 'incgood', 'sharedAB', 'sharedBA', 'path_A', 'path_B']
+OPS = ['def', 'use_const', 'use_label', 'use_alias', 'def_nd', 'use_const_nd', 'use_label_nd', 'use_alias_nd', 'fail_parse', 'fail_const', 'fail_enc', 'fail_data', 'ok_c', 'ok_u', 'edge_c', 'fail_pseudo_c', 'many', 'board1', 'board2', 'incX', 'incY', 'incfail', 'incgood', 'sharedAB', 'sharedBA', 'path_A', 'path_B']
 
 
-OBSERVERS = ['use_const', 'use_alias', 'use_const_nd', 'use_label_nd', 'board2', 'incY', 'incgood', 'sharedBA', 'path_B']
+OBSERVERS = ['use_const', 'use_alias', 'use_const_nd', 'use_label_nd', 'board2', 'incY', 'incgood', 'sharedBA', 'path_B', 'edge_c']
 
 
 def child(hist, hashseed='0', tag='h'):
@@ -166,10 +166,10 @@ def run(tier, seed, t0):
     cov = dict(states=n['calls'], transitions=n['calls'], traces_validated_against_impl=n['histories'] + n['seed_runs'],
                evaluations=n['calls'], distinct_nontrivial=n['histories'],
                rule='one history = one fresh interpreter executing up to %d assemble() calls; states counts (history, step) pairs compared with the fresh-interpreter result of the same call; '
-                    '%s' % (depth, 'all histories of length 3 over the %d-call alphabet and all of length 4 ending in one of 9 observer calls' % len(OPS) if tier == 'thorough' else
-                            'all histories of length 2 over the %d-call alphabet and all of length 3 ending in one of 9 observer calls' % len(OPS)),
+                    '%s' % (depth, 'all histories of length 3 over the %d-call alphabet and all of length 4 ending in one of 10 observer calls' % len(OPS) if tier == 'thorough' else
+                            'all histories of length 2 over the %d-call alphabet and all of length 3 ending in one of 10 observer calls' % len(OPS)),
                exhaustive=True, depth=depth, alphabet=OPS, distinct_module_states=nstates, hash_seeds=[s if s is not None else 'unset' for s in seeds],
-               bound=('all %d^3 histories of length 3 + %d^3 x 9 of length 4' % (len(OPS), len(OPS)) if tier == 'thorough' else 'all %d^2 histories of length 2 + %d^2 x 9 of length 3' % (len(OPS), len(OPS))) + '; 7 hash seeds x (%d API calls + command line with -l / --hex-offset and four -i directories, with and without -v)' % len(OPS))
+               bound=('all %d^3 histories of length 3 + %d^3 x 10 of length 4' % (len(OPS), len(OPS)) if tier == 'thorough' else 'all %d^2 histories of length 2 + %d^2 x 10 of length 3' % (len(OPS), len(OPS))) + '; 7 hash seeds x (%d API calls + command line with -l / --hex-offset and four -i directories, with and without -v)' % len(OPS))
     del m.sets['states']
     return kernel.finish(PROP, tier, seed, t0, m, cov, [
         'the fresh-interpreter result of the same call is the reference (differential, no hand-written expectation)',
